@@ -1029,6 +1029,15 @@ Section LogStep.
     destruct (mp_run W H nofaults now m1 c1 r) as [[m2 e2] c2]. reflexivity.
   Qed.
 
+  Lemma run_cons_nodraw now m c a r m1 :
+    mp_exec1 W H nofaults now m c a = (m1, [], c, true) ->
+    fst (fst (mp_run W H nofaults now m c (a :: r))) = fst (fst (mp_run W H nofaults now m1 c r))
+    /\ forall g, g_run W H now m c (a :: r) g = g_run W H now m1 c r (g_act W now m a g).
+  Proof.
+    intros E. cbn [mp_run g_run]. rewrite E. destruct (mp_run W H nofaults now m1 c r) as [[m2 e2] c2].
+    split; reflexivity.
+  Qed.
+
   Lemma J_mark m idx : J m -> J (ms_mark_zombie W m idx).
   Proof.
     intros [Ho [tg Ht]]. unfold ms_mark_zombie. destruct (ms_order m) as [|first rest]; [split; eauto|].
@@ -1087,7 +1096,7 @@ Section LogStep.
               /\ J (fst (fst (mp_run W H nofaults now (s_mp s) (s_calls s) (draw_actions W s1 b force))))).
     { intros s1 b force E. rewrite app_nil_r, <- E. apply log_draw_actions. rewrite E. exact HJ. }
     assert (Hnil : mg_log g = mg_log g ++ [] /\ J (s_mp s)) by (rewrite app_nil_r; auto).
-    destruct o; cbn [op_actions op_log]; try (apply Hd; reflexivity); try exact Hnil.
+    destruct o; cbn [op_actions op_log] in Hfit |- *; try (apply Hd; reflexivity); try exact Hnil.
     all: try (unfold pos_actions;
               match goal with |- context [ap_allow ?a ?b] => destruct (ap_allow a b) as [[|] ap'] end;
               [apply Hd; reflexivity | exact Hnil]).
@@ -1122,32 +1131,29 @@ Section LogStep.
       match goal with |- context [match ?x with Some l => _ | None => _ end] => destruct x as [l|] end; [|exact Hnil].
       destruct (ms_insert (s_mp s) l) as [[m1 idx]|] eqn:Ei; [|exact Hnil].
       pose proof (J_insert _ _ _ _ HJ Ei) as HJ1.
-      cbn [g_run mp_run mp_exec1 g_act]. rewrite Ei.
+      match goal with |- context [g_run W H now (s_mp s) (s_calls s) (AInsert l :: ?r) g] =>
+        destruct (run_cons_nodraw now (s_mp s) (s_calls s) (AInsert l) r m1) as [E1 E2];
+          [cbn [mp_exec1]; rewrite Ei; reflexivity|]; rewrite E1, E2; cbn [g_act] end.
       destruct (b_target (get_bar s b)) as [|tg|idx0].
       + cbn. rewrite ?app_nil_r. auto.
       + cbn. rewrite ?app_nil_r. auto.
       + pose proof (log_store_draw W H now m1 (s_calls s) g idx0 [] [] true HJ1 ltac:(reflexivity)) as Hl.
-        cbv zeta in Hl.
-        destruct (mp_run W H nofaults now m1 (s_calls s) [AStore idx0 [] []; ADraw true None]) as [[m2 e2] c2].
-        cbn [fst snd] in *. exact Hl.
+        cbv zeta in Hl. cbn [map] in Hl. exact Hl.
     - (* ORemove *)
       destruct (b_target (get_bar s b)) as [|tg|idx]; [exact Hnil | exact Hnil |].
-      cbn [g_run mp_run mp_exec1 g_act].
+      destruct (run_cons_nodraw now (s_mp s) (s_calls s) (ARemove idx) [ADraw true None] (ms_remove_idx (s_mp s) idx) eq_refl) as [E1 E2].
+      rewrite E1, E2. cbn [g_act].
       pose proof (log_forced_draw W H now (ms_remove_idx (s_mp s) idx) (s_calls s) g None (J_remove _ idx HJ)) as Hl.
-      cbv zeta in Hl.
-      destruct (mp_run W H nofaults now (ms_remove_idx (s_mp s) idx) (s_calls s) [ADraw true None]) as [[m2 e2] c2].
-      cbn [fst snd] in *. exact Hl.
+      cbv zeta in Hl. cbn [map] in Hl. exact Hl.
     - (* OMPrintln *)
       pose proof (log_forced_draw W H now (s_mp s) (s_calls s) g
                     (Some (match m with [] => [mkline KEmpty []] | _ => map (mkline KText) (lines_of m) end)) HJ) as Hl.
-      cbv zeta in Hl. rewrite mp_println_lt in Hl. exact Hl.
+      cbv beta zeta iota in Hl. rewrite mp_println_lt in Hl. exact Hl.
     - (* OMSuspend *) apply log_suspend. exact HJ.
     - (* OMClear *)
       cbn [g_run mp_run mp_exec1 g_act mg_log]. destruct HJ as [Ho [tg Ht]].
       destruct (ms_clear_fields W H (s_mp s) (s_calls s) tg Ht) as (Eo & _ & _ & Et). unfold fst4 in *.
       destruct (ms_clear W H nofaults (s_mp s) (s_calls s)) as [[[m1 e1] c1] ok1]. cbn [fst snd] in *.
       rewrite app_nil_r. split; [reflexivity | split; [congruence | exact Et]].
-    - (* OSetAlign *)
-      cbn. rewrite app_nil_r. split; [reflexivity | exact HJ].
   Qed.
 End LogStep.
